@@ -79,6 +79,8 @@ class Sched:
     self.choices = []        # per step: (chosen name, sorted runnable names)
     self.last = None
     self.observers = []      # callables invoked (in the scheduler thread) after every step
+    self.sync_observers = [] # callables invoked right after an operation took effect (in the thread that performed it)
+    self.last_rec = None
     self.stalls = []         # (thread, now, duration): injected delays ("this thread was slow here")
     self.on_stall = None
 
@@ -105,7 +107,11 @@ class Sched:
 
   def result(self, res):
     if self.me() is not None and self.log:
-      self.log[-1][5] = res
+      self.log[self.last_rec if self.last_rec is not None else -1][5] = res
+      # observers that must see the operation at the moment it took effect (in the thread that performed it, before
+      # that thread runs any further code): the order of their records is the true order of events
+      for ob in self.sync_observers:
+        ob(self)
 
   def note(self, _kind, **kw):
     """API-level marker in the trace (no scheduling point)"""
